@@ -8,6 +8,7 @@ package main
 import (
 	"fmt"
 	"math/rand"
+	"regexp"
 	"strings"
 
 	"helm.sh/helm/v4/pkg/strvals"
@@ -124,6 +125,17 @@ func c20ExecStrvals(c *c20StrvalsC) c20Obs {
 		obs.Class, obs.Panic, obs.Where = class, msg, where
 	}
 	return obs
+}
+
+var c20DeepItems = regexp.MustCompile(`^a((\[[0-9]\])(\.a)?)+=1$`)
+
+// c20OracleStrvals: a name nested deeper than MaxNestedNameLevel must be refused whether the
+// levels are dots or list items (the recursion depth of the parser follows the nesting).
+func c20OracleStrvals(c *c20StrvalsC, obs c20Obs) []hx.Violation {
+	if obs.Class == "ok" && c20DeepItems.MatchString(c.Input) && strings.Count(c.Input, "[") > strvals.MaxNestedNameLevel+2 {
+		return []hx.Violation{{Sig: "C20:strvals-nesting-unbounded", What: fmt.Sprintf("a name with %d nested list items was accepted: list items do not count as nesting levels, the parser's recursion depth is bounded only by the input length", strings.Count(c.Input, "["))}}
+	}
+	return nil
 }
 
 func c20CoqStrvals(c *c20StrvalsC, obs c20Obs) string {
